@@ -113,3 +113,34 @@ func VerifC12Sample() {
 	verifrt.Assert(s >= 21 && s <= 1448, "sample inside [min,max]")
 	verifrt.Reach("end")
 }
+
+// VerifC12AliasExact: lemma D4 – in exact (real) arithmetic the alias tables reproduce the
+// weights exactly: P(i) = (prob[i] + sum over j with alias[j]==i of (1-prob[j])) / n equals
+// weights[i] / sum(weights), for every weight vector of n <= max_n entries.
+func VerifC12AliasExact() {
+	n := verifrt.Pick("n", 1, verifrt.Param("max_n"))
+	w := &WeightedDist{}
+	w.values = make([]int, n)
+	w.weights = make([]float64, n)
+	sum := 0.0
+	for i := 0; i < n; i++ {
+		w.weights[i] = verifrt.Real("weight")
+		verifrt.Assume(w.weights[i] >= 0)
+		sum += w.weights[i]
+	}
+	verifrt.Assume(sum > 0)
+	w.genTables()
+	for i := 0; i < n; i++ {
+		verifrt.Assert(w.alias[i] >= 0 && w.alias[i] < n, "alias in range")
+		verifrt.Assert(w.prob[i] >= 0 && w.prob[i] <= 1, "prob is a probability")
+		total := w.prob[i]
+		for j := 0; j < n; j++ {
+			if j != i && w.alias[j] == i {
+				total += 1 - w.prob[j]
+			}
+		}
+		// P(i) == weights[i]/sum  <=>  total * sum == weights[i] * n
+		verifrt.Assert(total*sum == w.weights[i]*float64(n), "the tables reproduce the normalised weight exactly (real arithmetic)")
+	}
+	verifrt.Reach("end")
+}
